@@ -9,7 +9,7 @@ SHARD = 12
 TOL = "(q 1 100000)"     # relative tolerance on d^p for root-form distances (float32 sqrt/pow: measured < 4e-7)
 RULE = ("N in 1..14 points on the k/4 grid with duplicated points and distance ties, feature shapes (d), (h,w), (h,w,c); "
         "k in 1..N; batch sizes {None,1,2,N-1,N,N+1,random}; distances manhattan / chebyshev ('chebyshev','inf',np.inf) / "
-        "euclidean / Minkowski 1,2,3 / user callable; containers numpy, tf, torch tensors, batched and unbatched "
+        "euclidean / Minkowski 1,2,3 / cosine (rational-norm vectors) / user callable; containers numpy, tf, torch tensors, batched and unbatched "
         "tf.data datasets with 1-3 columns or separate label/target datasets; projections none / weight tensor (np, tf) / "
         "target-dependent weight callable / space projection (plain callable or Projection, mappable or not) / both; "
         "random case_returns subsets incl. 'all' and single strings; distinct = different canonical JSON; non-trivial = "
@@ -18,7 +18,7 @@ ASSUMPTIONS = ["queries are independent rows (the search is vectorised over quer
                "tf.argsort returns a sorting permutation (any tie-breaking is accepted by the comparison)",
                "manhattan / chebyshev / callable distances of dyadic data are exact in float32 (exact comparison); "
                "euclidean / Minkowski-p are compared in root-free form: |d^p - sum|dx|^p| <= 1e-5 (1 + sum)",
-               "cosine distance is not covered (irrational norms)"]
+               "cosine distance is exercised on 2-D vectors with rational norms only (|d - model| <= 1e-5)"]
 
 GRID = [k / 4 for k in range(-8, 9)]
 SMALL = [-0.5, 0.0, 0.5]
@@ -66,7 +66,26 @@ def gen_proj(rng, shape, ncls):
     return p
 
 
-DISTS = ["manhattan", "manhattan", "euclidean", "euclidean", "chebyshev", "inf", "npinf", "p1", "p2", "p3", "callable"]
+DISTS = ["manhattan", "manhattan", "euclidean", "euclidean", "chebyshev", "inf", "npinf", "p1", "p2", "p3", "callable",
+         "cosine"]
+# 2-D vectors on the k/4 grid whose Euclidean norm is rational (cosine distance is then rational); collinear
+# pairs give exact ties
+PYTH = [[0.75, 1.0], [1.0, 0.75], [-0.75, 1.0], [0.75, -1.0], [1.0, 0.0], [0.0, 1.0], [0.0, -2.0], [2.0, 0.0],
+        [1.25, 3.0], [3.0, 1.25], [1.5, 2.0], [-1.5, -2.0], [2.0, 3.75], [-1.0, 0.75], [3.0, -1.25], [-2.0, -1.5]]
+
+
+def make_cosine(rng, case):
+    """cosine needs rational norms: 2-D Pythagorean vectors, no projection (or a uniform positive scaling)"""
+    n = case["n"]
+    case["shape"] = [2]
+    case["cases"] = [list(rng.choice(PYTH)) for _ in range(n)]
+    case["qs"] = [list(rng.choice(PYTH)) for _ in case["qs"]]
+    if rng.random() < 0.5:
+        case["proj"] = dict(kind="none", sp=None, wk="none", how="Projection", mappable=False, wtype="np")
+    else:
+        w = rng.choice([0.5, 2.0, 1.0])
+        case["proj"] = dict(kind="wconst", sp=None, wk="const", w=[w, w], how="Projection", mappable=rng.random() < 0.4,
+                            wtype=rng.choice(["np", "tf"]))
 RETURNS = ["examples", "distances", "labels", "include_inputs", "indices"]
 
 
@@ -139,6 +158,8 @@ def gen_case(rng, tier, with_classes=False):
     if case["dist"] == "callable":
         pd = proj["sp"] and len(proj["sp"]["M"]) or dim
         case["dw"] = [rng.choice([0.5, 1, 1, 2]) for _ in range(pd)]
+    if case["dist"] == "cosine":
+        make_cosine(rng, case)
     return case
 
 
@@ -177,6 +198,8 @@ def np_dist(case, a, b):
         return (d * d).sum()
     if k == "p3":
         return (d ** 3).sum()
+    if k == "cosine":
+        return round(1 - float(a @ b) / float(np.sqrt(a @ a) * np.sqrt(b @ b)), 9)
     return (d * np.array(case["dw"])).sum()
 
 
@@ -411,6 +434,8 @@ def cdist(case):
         return "DEuclid"
     if k in ("p1", "p2", "p3"):
         return f"(DPow {k[1]})"
+    if k == "cosine":
+        return "DCosine"
     return f"(DCustom {core.cqlist(case['dw'])})"
 
 
